@@ -101,6 +101,10 @@ func vReadmeOps() []vOp {
 		{q: `mutation { saveHuman(name: "x") { name } savePhone(p: "1") { phone name } }`},
 		{q: `{ me { email badge { code } phone } }`},
 		{q: `{ getHumans { badge { code label } friends { email } } }`},
+		{q: `{ me { best { phone } phone } }`},
+		{q: `{ me { phone } }`},
+		{q: `{ me { id phone } }`},
+		{q: `{ getHumans { friends { phone name } phone } }`},
 		{q: `query($u: Boolean = true) { me { name(upper: $u) phone } }`, known: "default-var"},
 		{q: `query($s: Boolean!) { me { name phone @skip(if: $s) } }`, known: "directive-var", vars: func() map[string]interface{} { return map[string]interface{}{"s": false} }},
 		{q: `{ node(id: "h1") { id } }`, noNode: true, known: "node-without-fragment"},
@@ -321,6 +325,63 @@ func VerifPipelineAbstract() {
 		{name: "hint", opts: func() []GatewayOption { return []GatewayOption{WithGetParentTypeFromIDFunc(vAbstractHint)} }},
 	} {
 		vCheckOne(w, cfg, op, nil, []string{vSC1, vSC2})
+	}
+	verifReach("pipeline completed")
+}
+
+// ---- scenario 3: deep object chains and snake_case paths (insertion-point slices with spare
+// capacity, later sibling object fields, joined-path collisions) ----
+
+const vSD1 = `
+interface Node { id: ID! }
+type Item implements Node { id: ID! label: String }
+type Aisle { left: Item right: Item items: [Item!]! }
+type Floor { aisle: Aisle name: String }
+type Shop { floor: Floor annex: Floor }
+type OI { product: Item }
+type O { item_product: Item }
+type Query { node(id: ID!): Node shop: Shop order_item: OI order: O }
+`
+const vSD2 = `
+interface Node { id: ID! }
+type Item implements Node { id: ID! stock: Int price: Int }
+type Query { node(id: ID!): Node }
+`
+
+func vDeepWorld() *vWorld {
+	w := &vWorld{ents: map[string]vEnt{}, roots: map[string]interface{}{}}
+	for _, id := range []string{"i1", "i2", "i3"} {
+		w.ents[id] = vEnt{"__typename": "Item", "id": id, "stock": verifInt(id+"_stock", 0, 9)}
+	}
+	aisle := vEnt{"__typename": "Aisle", "id": "aisle", "left": vRef{"Item", "i1"}, "right": vRef{"Item", "i2"}, "items": []vRef{{"Item", "i3"}, {"Item", "i1"}}}
+	w.ents["aisle"] = aisle
+	w.ents["floor"] = vEnt{"__typename": "Floor", "id": "floor", "aisle": vRef{"Aisle", "aisle"}}
+	w.ents["annex"] = vEnt{"__typename": "Floor", "id": "annex", "aisle": vRef{"Aisle", "aisle"}}
+	w.ents["shop"] = vEnt{"__typename": "Shop", "id": "shop", "floor": vRef{"Floor", "floor"}, "annex": vRef{"Floor", "annex"}}
+	w.ents["oi"] = vEnt{"__typename": "OI", "id": "oi", "product": vRef{"Item", "i1"}}
+	w.ents["o"] = vEnt{"__typename": "O", "id": "o", "item_product": vRef{"Item", "i2"}}
+	w.roots["Query.shop"] = vRef{"Shop", "shop"}
+	w.roots["Query.order_item"] = vRef{"OI", "oi"}
+	w.roots["Query.order"] = vRef{"O", "o"}
+	return w
+}
+
+func vDeepOps() []vOp {
+	return []vOp{
+		{q: `{ shop { floor { aisle { left { label stock } right { label stock } } } } }`},
+		{q: `{ shop { floor { aisle { left { stock } items { label price } right { stock } } name } annex { aisle { right { stock } left { label } } } } }`},
+		{q: `{ order_item { product { label price } } order { item_product { label price } } }`},
+		{q: `{ a: shop { floor { aisle { left { stock } } } } b: shop { annex { aisle { left { stock } right { price } } } } }`},
+	}
+}
+
+func VerifPipelineDeep() {
+	ops := vDeepOps()
+	op := ops[verifChoice("op", len(ops))]
+	verifLog("op: " + op.q)
+	w := vDeepWorld()
+	for _, cfg := range vConfigs()[:2] {
+		vCheckOne(w, cfg, op, nil, []string{vSD1, vSD2})
 	}
 	verifReach("pipeline completed")
 }
